@@ -224,6 +224,37 @@ func verifHarness_C13_full_queue_keeps_backlog() {
 	verifReach("C13/K2b")
 }
 
+// K2c (C13): after an overflow the bound is still "64 queued items", not less: the writer takes drained items off a
+// backlog that has overflowed, and every later item that finds room is queued again (at the tail), for each number
+// of drained items 1..64.
+func verifHarness_C13_overflow_then_room(drained int) {
+	n := verifBareNode(V2, 1, 1)
+	rc := &Channel{node: n, rwc: &verifRWC{}}
+	verifAssert(rc.initialize() == nil, "C13/K2c/channel-init")
+	for i := 0; i < 67; i++ {
+		rc.write(&message.MessageRaw{ID: 7, Payload: []byte{byte(i)}})
+	}
+	verifAssert(len(rc.chWrite) == 64, "C13/K2c/sixty-four-items-queued")
+	for i := 0; i < drained; i++ {
+		<-rc.chWrite
+	}
+	late := make([]*message.MessageRaw, drained+1)
+	for i := range late {
+		late[i] = &message.MessageRaw{ID: 8, Payload: []byte{byte(i)}}
+		blocked := verifRunUntilBlocked(func() { rc.write(late[i]) })
+		verifAssert(!blocked, "C13/K2c/enqueue-never-blocks")
+	}
+	verifAssert(len(rc.chWrite) == 64, "C13/K2c/items-with-room-are-queued-after-an-overflow")
+	for i := 0; i < 64-drained; i++ {
+		<-rc.chWrite
+	}
+	for i := 0; i < drained; i++ {
+		it := <-rc.chWrite
+		verifAssert(it == interface{}(late[i]), "C13/K2c/late-items-at-tail-in-order")
+	}
+	verifReach("C13/K2c")
+}
+
 // K2 (C11/C13): enqueue on one channel with an arbitrary fill level: appended at the tail when below 64,
 // dropped without blocking when full; a cancelled channel never blocks either.
 func verifHarness_C13_enqueue(cancelled int) {
